@@ -439,6 +439,8 @@ def lit_for(kind, i, variant=0):
         return f'Dict["k{i}" => {i}]' if variant == 0 else "Dict[]"
     if kind == "EnumVariant":
         return ["True", "False", "None", "Some(3)"][(i + variant) % 4]
+    if kind == "Struct" and variant == 2:
+        return "VerifOther{ a: 1 }"          # a struct that is not the one the built-in expects (prelude added by the caller)
     return LITERALS.get(kind)
 
 
@@ -652,7 +654,7 @@ def check_not_encodable(C, key):
                                   f"committed list of steps outside the claim")
 
 
-def snippet_alternatives(P, rec, names, ns_paths, limit=8):
+def snippet_alternatives(P, rec, names, ns_paths, limit=10):
     """All Garden renderings of this path's step worth trying natively: operand kinds the path left open are
     tried as the solver's pick and as String / List / Int; aggregate operands also in their empty form."""
     out = []
@@ -670,12 +672,18 @@ def snippet_alternatives(P, rec, names, ns_paths, limit=8):
         combos += [({lab: k}, {}) for k in ("String", "List", "Float")]
     for lab in agg_labs[:2]:
         combos += [({}, {lab: 1})]
+    struct_labs = [lab for lab, (v, node) in rec["token_values"].items()
+                   if node is not None and rec["known_tags"].get(node.id) == "Struct"]
+    for lab in struct_labs[:2]:
+        combos += [({}, {lab: 2})]
     for bv in base_variants:
         for no_model_ints in (False, True):
             for ko, lv in combos:
                 rec.update(bv)
                 rec["kind_override"], rec["lit_variant"], rec["no_model_ints"] = ko, lv, no_model_ints
                 sn = snippet(P, rec, names, ns_paths)
+                if sn is not None and "VerifOther{" in sn[1]:
+                    sn = ((sn[0] + "\n" if sn[0] else "") + "struct VerifOther { a: Int }", sn[1])
                 if sn is not None and sn not in out:
                     out.append(sn)
                 if len(out) >= limit:
